@@ -217,20 +217,29 @@ func TestOmHashScript(t *testing.T) {
 	v := newEnv(t)
 	k := []string{"user:1"}
 	id := "om_hashSaveScript"
-	v.ev(id, k, []string{"ver", "0", "name", "bob"}, "$1") // new entity: HGET nil -> saved with ver 1
+	// a later revision of the script (fix: clear the fields of nil pointers) takes, after the fields and the optional
+	// expiry, the names of the fields to HDEL followed by their count: a plain save then ends with "0"
+	hdel := strings.Contains(v.script(id), "HDEL")
+	a := func(args ...string) []string {
+		if hdel {
+			return append(args, "0")
+		}
+		return args
+	}
+	v.ev(id, k, a("ver", "0", "name", "bob"), "$1") // new entity: HGET nil -> saved with ver 1
 	v.expect("hash", v.hash("user:1"), "name=bob,ver=1")
-	v.ev(id, k, []string{"ver", "0", "name", "eve"}, "_") // stale version
+	v.ev(id, k, a("ver", "0", "name", "eve"), "_") // stale version
 	v.expect("hash", v.hash("user:1"), "name=bob,ver=1")
-	v.ev(id, k, []string{"ver", "1", "name", "al", "age", "3"}, "$2")
+	v.ev(id, k, a("ver", "1", "name", "al", "age", "3"), "$2")
 	v.expect("hash", v.hash("user:1"), "age=3,name=al,ver=2")
 	v.do(":-1", "PTTL", "user:1")
-	v.ev(id, k, []string{"ver", "2", "name", "al", ms(5000)}, "$3") // odd #ARGV: last one is PEXPIREAT
+	v.ev(id, k, a("ver", "2", "name", "al", ms(5000)), "$3") // odd #ARGV: last one is PEXPIREAT
 	v.expect("hash", v.hash("user:1"), "age=3,name=al,ver=3")
 	v.do(":5000", "PTTL", "user:1")
 	// verless schema: ARGV[1] == ''
-	v.ev(id, []string{"user:2"}, []string{"", "0", "name", "x"}, "$0")
+	v.ev(id, []string{"user:2"}, a("", "0", "name", "x"), "$0")
 	v.expect("hash", v.hash("user:2"), "=0,name=x")
-	v.ev(id, []string{"user:2"}, []string{"", "0", "name", "y", ms(100)}, "$0")
+	v.ev(id, []string{"user:2"}, a("", "0", "name", "y", ms(100)), "$0")
 	v.expect("hash", v.hash("user:2"), "=0,name=y")
 	v.do(":100", "PTTL", "user:2")
 }
